@@ -400,6 +400,19 @@ func c20LooksLikeDocument(o *c20Obs) bool {
 	return isObj
 }
 
+// isTheDocument: the answer is the relay information document (by its media type, or because
+// its body reads as the configured document); a greeting may take any form, JSON included.
+func (g *c20Group) isTheDocument(o *c20Obs) bool {
+	if c20MediaType(o.Header) == "application/nostr+json" {
+		return true
+	}
+	if !o.BodyVisible || !c20LooksLikeDocument(o) {
+		return false
+	}
+	d, e := c20RefReadBytes([]byte(o.Body))
+	return e == "" && c20DocDiff(g.doc, d) == ""
+}
+
 // judgeDoc: the answer is the configured document.
 func (g *c20Group) judgeDoc(q *c20Req, o *c20Obs) []c20Fault {
 	var f []c20Fault
@@ -462,7 +475,7 @@ func (g *c20Group) judgeDefault(q *c20Req, o *c20Obs) []c20Fault {
 		}
 		if o.Header.Get("X-Verif-Default") != g.Marker || o.Status != g.DefStatus {
 			sig := "default/not-the-handlers-answer"
-			if c20LooksLikeDocument(o) {
+			if g.isTheDocument(o) {
 				sig = "default/answered-with-document"
 			}
 			f = append(f, c20Fault{sig, fmt.Sprintf("answer (status %d) is not the default handler's (status %d, marker %s)", o.Status, g.DefStatus, g.Marker)})
@@ -475,11 +488,11 @@ func (g *c20Group) judgeDefault(q *c20Req, o *c20Obs) []c20Fault {
 		f = append(f, c20Fault{"default/phantom-handler", "a default handler ran although none is configured"})
 	}
 	switch {
-	case c20LooksLikeDocument(o):
-		f = append(f, c20Fault{"default/answered-with-document", "a request without Upgrade and without the NIP-11 Accept value was answered with a JSON document instead of the greeting"})
+	case g.isTheDocument(o):
+		f = append(f, c20Fault{"default/answered-with-document", "a request without Upgrade and without the NIP-11 Accept value was answered with the information document instead of the greeting"})
 	case o.Status != 200:
 		f = append(f, c20Fault{"default/greeting-status", fmt.Sprintf("status %d instead of the greeting", o.Status)})
-	case o.BodyVisible && strings.TrimSpace(o.Body) == "":
+	case o.BodyVisible && strings.TrimSpace(o.Body) == "" && q.Method != "HEAD": // the answer to a HEAD request may come without a body
 		f = append(f, c20Fault{"default/greeting-empty", "empty answer instead of the greeting"})
 	}
 	return f
